@@ -586,16 +586,18 @@ Example ex_remove_all :
   /\ map (active_at (tbl a')) [0; 1; 2; 3] = [[]; [b1; r1]; []; [b1]].
 Proof. eexists. split; [vm_compute; reflexivity|]. vm_compute; reflexivity. Qed.
 
-(* why "form_falsy fm = false" is a separate hypothesis of the inside theorems: the bare integer 0
-   scrubs to the text "0" but is falsy, so apply_formatting(0, ...) returns early.
+(* why "form_falsy fm = false" is a separate hypothesis of the inside theorems: an empty string / list is falsy and
+   apply_formatting returns early.  The bare integer 0 used to be falsy too (apply_formatting(0, ...) did nothing although
+   0 scrubs to the text "0"); as repaired (known_findings F45) it is the reset code like [0].
    (format_matching itself always passes a tuple, FList [...], which is truthy when not empty.) *)
-Example ex_falsy_zero :
-  scrub (FInt 0) = OK [[48%N]] /\ form_falsy (FInt 0) = true
-  /\ apply_spans ex_v (FInt 0) [(1, 3)%Z] 2 = OK (ex_v, 2)
-  /\ exists a', apply_spans ex_v (FList [FInt 0]) [(1, 3)%Z] 2 = OK (a', 3) /\ a' <> ex_v.
+Example ex_zero_is_a_code :
+  scrub (FInt 0) = OK [[48%N]] /\ form_falsy (FInt 0) = false /\ form_falsy (FStr []) = true /\ form_falsy (FList []) = true
+  /\ apply_spans ex_v (FStr []) [(1, 3)%Z] 2 = OK (ex_v, 2)
+  /\ exists a', apply_spans ex_v (FInt 0) [(1, 3)%Z] 2 = OK (a', 3) /\ a' <> ex_v
+              /\ apply_spans ex_v (FList [FInt 0]) [(1, 3)%Z] 2 = OK (a', 3).
 Proof.
-  split; [reflexivity|]. split; [reflexivity|]. split; [reflexivity|].
-  eexists. split; [vm_compute; reflexivity|]. discriminate.
+  split; [reflexivity|]. split; [reflexivity|]. split; [reflexivity|]. split; [reflexivity|]. split; [reflexivity|].
+  eexists. split; [vm_compute; reflexivity|]. split; [discriminate|]. vm_compute; reflexivity.
 Qed.
 
 (* overlapping spans (never produced by re.finditer): theorem 1 still holds, but inside the
